@@ -38,7 +38,7 @@ def discover_owners(tu):
     owners.sort(key=lambda o: o.off)
     if not any(o.kind == "data" for o in owners):
         raise AnalysisBroken("%s: constructor stores no allocated data block (anchor vanished)" % tu.cfg)
-    if not tu.pl.all_fixed_locator and not any(o.kind == "table" for o in owners):
+    if not tu.pl.all_fixed_locator and not tu.meta[fn].get("element") and not any(o.kind == "table" for o in owners):
         raise AnalysisBroken("%s: constructor of a varying-size vector stores no address table (anchor vanished)" % tu.cfg)
     return owners
 
@@ -57,8 +57,11 @@ def ctor_alloc_relation(ck, owners, rule):
         if e is None:
             raise AnalysisBroken("%s: owner field +%d not set from an allocation in the constructor" % (tu.cfg, o.off))
         want = tu.obs(fn, "post", "mc") if o.kind == "data" else tu.obs(fn, "post", "cap").scale(8)
+        f0 = Facts()
+        if tu.meta[fn].get("element"):
+            assumed_alignment(sm, f0)
         ck.eq(rule + "-ctor-bytes", fn, "bytes requested for the %s block == %s" % (o.kind, "memory_consumption()" if o.kind == "data" else "8*capacity()"),
-              e.args[1], want, Facts())
+              e.args[1], want, f0)
         if tu.ak.stateful and not tu.ak.always_equal:
             ck.eq(rule + "-ctor-alloc", fn, "allocator used for the %s block == get_allocator()" % o.kind, e.args[0], tu.obs(fn, "post", "id"), Facts())
 
@@ -66,6 +69,9 @@ def ctor_alloc_relation(ck, owners, rule):
 # the witnesses and the roles of their container arguments
 #   role: 'live' (exists before and after), 'new' (constructed here), 'dies' (destroyed here)
 def witness_objects(tu):
+    if tu.meta.get("w_ctor", {}).get("element"):
+        # ContiguousElement witnesses carry their object roles in the generator's meta data
+        return {k: [tuple(o) for o in m["objs"]] for k, m in tu.meta.items() if m.get("objs") and tu.has(k)}
     out = {
         "w_ctor": [("mem", "new", None, "post")],
         "w_ctor_default": [("mem", "new", None, "post")],
@@ -82,6 +88,14 @@ def witness_objects(tu):
     for op in ("emplace_back", "pop_back", "erase1", "erase2", "clear", "reserve"):
         out["w_" + op] = [("v", "live", "pre", "post")]
     return {k: v for k, v in out.items() if tu.has(k)}
+
+
+def assumed_alignment(sm, facts):
+    """the library's own unconditional assume_aligned claims about addresses (decided by C03 on the vector
+    witnesses) as congruence premises: the compiler has already used them to fold size computations"""
+    for e in sm.events:
+        if e.kind == "ASSUME_ALIGN" and e.guard == TRUE and isinstance(e.args[1], Lin) and e.args[1].is_const() and e.args[1].c > 1:
+            facts.add_cong(e.args[0], e.args[1].c)
 
 
 def ownership(ck, owners, rule="OWN", fns=None, exits=("ret",)):
@@ -163,6 +177,8 @@ def check_witness(ck, owners, fn, objs, rule, exits=("ret",)):
         # an allocator never returns null
         for e in ev_alloc:
             base.add(c_not(c_cmp("eq", e.res, ZERO)))
+        if tu.meta[fn].get("element"):
+            assumed_alignment(sm, base)
         # events behind the throwing call of this exit did not happen
         cut = _throw_seq(xguard) if implicit else 1 << 30
         ea = [e for e in ev_alloc if e.seq <= cut]
